@@ -10,9 +10,9 @@ from .. import common
 from ..common import log
 
 TC_ALPHABET = "{}:.*$01ab ?x<+#-^ep"
-TC_N = {"quick": 4, "thorough": 6}
+TC_N = {"quick": 4, "thorough": 5}
 TC_DEEP = "{}:01ab ?x"
-TC_DEEP_N = {"quick": 6, "thorough": 8}
+TC_DEEP_N = {"quick": 6, "thorough": 7}
 
 
 def tc_cfg(*args):
